@@ -2926,7 +2926,18 @@ func (t *tr) indexFor(s *ast.ForStmt) *ast.RangeStmt {
 		return nil
 	}
 	cond, ok := s.Cond.(*ast.BinaryExpr)
-	if !ok || cond.Op != token.LSS || identName(cond.X) != i {
+	if !ok {
+		return nil
+	}
+	// `i < n && guard(xs[i])`: the guard is a `break` at the top of the body
+	var guard ast.Expr
+	if cond.Op == token.LAND {
+		if l, ok := unparen(cond.X).(*ast.BinaryExpr); ok {
+			guard = cond.Y
+			cond = l
+		}
+	}
+	if cond.Op != token.LSS || identName(cond.X) != i {
 		return nil
 	}
 	var xs ast.Expr
@@ -2961,7 +2972,13 @@ func (t *tr) indexFor(s *ast.ForStmt) *ast.RangeStmt {
 	if bad {
 		return nil
 	}
-	return &ast.RangeStmt{Key: &ast.Ident{Name: i}, Tok: token.DEFINE, X: xs, Body: s.Body}
+	body := s.Body
+	if guard != nil {
+		brk := &ast.IfStmt{Cond: &ast.UnaryExpr{Op: token.NOT, X: &ast.ParenExpr{X: guard}},
+			Body: &ast.BlockStmt{List: []ast.Stmt{&ast.BranchStmt{Tok: token.BREAK}}}}
+		body = &ast.BlockStmt{List: append([]ast.Stmt{brk}, s.Body.List...)}
+	}
+	return &ast.RangeStmt{Key: &ast.Ident{Name: i}, Tok: token.DEFINE, X: xs, Body: body}
 }
 
 // pureDef: a local `x := e` that is never assigned again or written through, whose right-hand
